@@ -96,7 +96,9 @@ def cases(rng, tier):
         for _ in range(rng.randint(1, 5)):
             k = n if rng.random() < 0.8 else max(0, n + rng.choice([-1, 1, 2]))
             hist.append([frac(x) for x in _dyadic_vec(rng, k)] if k else [])
-        yield ("setter", {"nmaps": n, "init": [frac(x) for x in _dyadic_vec(rng, n)], "hist": hist, "gate": None})
+        yield ("setter", {"nmaps": n, "init": [frac(x) for x in _dyadic_vec(rng, n)], "hist": hist, "gate": None,
+                          # the container the coefficients arrive in (a float64 array is not copied by numpy conversions)
+                          "container": rng.choice(["list", "list", "tuple", "ndarray", "ndarray"])})
     for _ in range(reps * 2):
         name = rng.choice(["cx", "cz", "cy", "ch", "ecr", "rzz", "crx", "move", "swap", "cs"])
         params = [gen.rand_angle(rng)] if name in c02.FAMS else []
@@ -162,16 +164,25 @@ def run_real(kind, payload):
     from qiskit_addon_cutting.qpd import QPDBasis
     from qiskit.circuit.library import XGate
     if kind == "setter":
+        def box(vals):
+            cont = payload.get("container", "list")
+            return tuple(vals) if cont == "tuple" else (np.array(vals, dtype=float) if cont == "ndarray" else list(vals))
         if payload["gate"] is None:
             maps = [([XGate()],) for _ in range(payload["nmaps"])]
-            b = QPDBasis(maps, [float(Fraction(c)) for c in payload["init"]])
+            given = box([float(Fraction(c)) for c in payload["init"]])
+            b = QPDBasis(maps, given)
+            if [float(x) for x in given] != [float(Fraction(c)) for c in payload["init"]]:
+                return {"ok": [{"ok": dict(_state(b), kappa=float("nan"))}], "note": "the caller's coefficient container was modified"}
         else:
             b = _basis(payload)
         out = [{"ok": _state(b)}]
         for cs in payload["hist"]:
             _ = (b.kappa, b.overhead, list(b.probabilities))  # read before the assignment (a stale cache must not survive it)
             try:
-                b.coeffs = [float(Fraction(c)) for c in cs]
+                given = box([float(Fraction(c)) for c in cs])
+                b.coeffs = given
+                if [float(x) for x in given] != [float(Fraction(c)) for c in cs]:
+                    return {"ok": out + [{"ok": dict(_state(b), kappa=float("nan"))}], "note": "the caller's coefficient container was modified"}
                 out.append({"ok": _state(b)})
             except ValueError:
                 out.append({"error": "ValueError", "state": _state(b)})
